@@ -21,7 +21,8 @@ import (
 
 func TestMain(m *testing.M) { vkit.Main(m) }
 
-// Op is one step. K: pub, sub, unsub, will (a client connects with a last will and goes away).
+// Op is one step. K: pub, sub, unsub, will (a client connects with a last will and goes away), linkpub (a link is
+// created for the channel with its ttl option and the message is published through the 2-character alias).
 type Op struct {
 	K      string `json:"op"`
 	C      int    `json:"c"`
@@ -53,6 +54,9 @@ func genCase(t *rapid.T) Case {
 		switch k := rapid.IntRange(0, 19).Draw(t, "kind"); {
 		case k < 10:
 			op.K = "pub"
+			if rapid.IntRange(0, 5).Draw(t, "vialink") == 0 {
+				op.K = "linkpub"
+			}
 			op.Ch = rapid.SampledFrom(chans).Draw(t, "ch")
 			op.Key = rapid.SampledFrom(pubKeys).Draw(t, "key")
 			op.Retain = rapid.IntRange(0, 2).Draw(t, "retain") == 0
@@ -192,7 +196,7 @@ func run(c Case) vkit.Result {
 	for step, op := range c.Ops {
 		cl := clients[op.C]
 		switch op.K {
-		case "pub":
+		case "pub", "linkpub":
 			payload := []byte(fmt.Sprintf("m%03d", step))
 			if op.Size != 4 {
 				payload = bytes.Repeat([]byte{byte('A' + step%26)}, op.Size)
@@ -200,6 +204,18 @@ func run(c Case) vkit.Result {
 			topic := keys[op.Key] + "/" + ns + op.Ch
 			if op.TTL != "" {
 				topic += "?ttl=" + op.TTL
+			}
+			if op.K == "linkpub" {
+				chOpt := ns + op.Ch
+				if op.TTL != "" {
+					chOpt += "?ttl=" + op.TTL
+				}
+				lp, err := cl.Request(uint16(step+1), "link", map[string]interface{}{"name": "L1", "key": keys[op.Key], "channel": chOpt, "subscribe": false})
+				if err != nil || len(lp) != 1 || !strings.Contains(string(lp[0].Payload), `"status":200`) {
+					return fail("step %d: link request for %q: %v %d replies", step, chOpt, err, len(lp))
+				}
+				topic = "L1"
+				labels["publish-through-link-with-options"] = true
 			}
 			own, err := cl.Publish(uint16(step+1), topic, payload, op.Retain)
 			if err != nil {
